@@ -98,6 +98,14 @@ proof fn lemma_opos_inherit_get<V>(n: NfaBuilder<u8, V>, s: int)
     requires opos_inherit(n), 2 <= s < n.states@.len(),
     ensures inh_at(n, n, s), n.states@[0].output_pos.is_none(), n.states@[1].output_pos.is_none(),
 { reveal(opos_inherit); }
+// the facts about the leftmost links and output positions from which the optimality of the leftmost stream follows (unit lm_opt_bw),
+// as one opaque atom (the wrappers only pass it on)
+#[verifier::opaque]
+spec fn lm_opt_facts<V>(n: NfaBuilder<u8, V>) -> bool { lm_fail_ok(n) && lm_dead_ok(n) && opos_inherit(n) && nfa_outs_ok(n) }
+proof fn lemma_lm_opt_facts_intro<V>(n: NfaBuilder<u8, V>)
+    requires lm_fail_ok(n), lm_dead_ok(n), opos_inherit(n), nfa_outs_ok(n),
+    ensures lm_opt_facts(n),
+{ reveal(lm_opt_facts); }
 // the trie built by `add` is the tree the double-array stage expects
 proof fn lemma_trie_gives_tree<V>(n: NfaBuilder<u8, V>)
     requires trie_ok(n), reach_ok(n), n.states@.len() <= u32::MAX as nat + 1,
